@@ -405,7 +405,7 @@ func (r *Router) SetUnknownCall(fn func(UnknownCallCtx) (interface{}, *Status), 
 	} else {
 		Warnf("covered %s handler", h.name)
 	}
-	r.subRouter.unknownCall = &h
+	*r.subRouter.unknownCall = h
 }
 
 // SetUnknownPush sets the default handler,
@@ -429,7 +429,7 @@ func (r *Router) SetUnknownPush(fn func(UnknownPushCtx) *Status, plugin ...Plugi
 	} else {
 		Warnf("covered %s handler", h.name)
 	}
-	r.subRouter.unknownPush = &h
+	*r.subRouter.unknownPush = h
 }
 
 func (r *SubRouter) getCall(uriPath string) (*Handler, bool) {
